@@ -59,6 +59,8 @@ class DisplayOracle:
         self.viol = None  # first violation only
         self._begin_seq = {}
         self._hooked_at_begin = {}
+        self._hook_changes_at_begin = {}
+        self.hook_changes = 0  # number of hook pushes + pops so far
         self._last_write_seq = {}
         self._stages = {}  # tid -> remaining stages of that client's current operation
         self._ops = {}
@@ -94,6 +96,7 @@ class DisplayOracle:
 
         def push_(hook):
             r = push(hook)
+            oracle.hook_changes += 1
             oracle.hook_depth += 1
             oracle.hooked = oracle.hook_depth > 0
             oracle.pushed_by.add(oracle._tid())
@@ -101,6 +104,7 @@ class DisplayOracle:
 
         def pop_():
             r = pop()
+            oracle.hook_changes += 1
             oracle.hook_depth -= 1
             oracle.hooked = oracle.hook_depth > 0
             oracle.popped_by.add(oracle._tid())
@@ -247,6 +251,7 @@ class DisplayOracle:
         tid = self._tid()
         self._begin_seq[tid] = self.sim.seq
         self._hooked_at_begin[tid] = self.hooked
+        self._hook_changes_at_begin[tid] = self.hook_changes
         self.pushed_by.discard(tid)
         self.popped_by.discard(tid)
         if self.tracker is not None:
@@ -275,8 +280,11 @@ class DisplayOracle:
     def end_op(self):
         """Every stage of the op must have happened by now."""
         self._fcache = {}
-        if self.stages and (not self._hooked_at_begin.get(self._tid(), True) or not self.hooked):
-            # a refresh that ran while no hook was installed legitimately writes nothing
+        if self.stages and (not self._hooked_at_begin.get(self._tid(), True) or not self.hooked
+                            or self._hook_changes_at_begin.get(self._tid()) != self.hook_changes):
+            # a refresh that ran while no hook was installed -- at the beginning, at the end, or at
+            # some moment in between (the hook was popped / pushed during the operation) --
+            # legitimately writes nothing
             self.stages = [st for st in self.stages if st[0] != "frame"]
         if self.viol is None and not self.relaxed and not self.stop_checks and self.stages:
             n = len(self.stages)
@@ -334,6 +342,10 @@ class DisplayOracle:
     def on_write(self, seq, tid, text):
         self._cur_write = (seq, tid)
         try:
+            content = any(t[0] == "text" or (t[0] == "csi" and t[2] in "KJ") for t in term.tokens(text))
+        except term.TermError:
+            content = True
+        try:
             self._on_write(seq, tid, text)
         finally:
             self._cur_write = None
@@ -341,8 +353,8 @@ class DisplayOracle:
                 tr = self.tracker
                 if tr.overlap(seq, tid):
                     tr.taint = seq
-                elif tr.taint is not None and tr.open.get(tid, -1) > tr.taint:
-                    tr.taint = None  # a hook evaluated after the tainting write has re-established the shape
+                elif tr.taint is not None and content and (tr.open.get(tid) is None or tr.open[tid] > tr.taint):
+                    tr.taint = None  # the first content write after the tainting one: shape / cursor re-established
                 tr.write_done(seq, tid)
 
     def _on_write(self, seq, tid, text):
@@ -598,12 +610,14 @@ class SpanTracker:
         without any visible damage at its own write (e.g. a buffered block that was rendered
         during one run of the display and written after the next run had started).  The
         inconsistency shows at the next hook evaluation, so the first hooked write whose hook
-        was evaluated after the tainting write is explained too; after that write the shape
-        has been re-established and the taint is gone."""
+        was evaluated after the tainting write is explained too; after that content write the
+        shape / cursor position has been re-established and the taint is gone."""
         if self.taint is None:
             return False
         s = self.open.get(tid)
-        return s is not None and s > self.taint
+        # (a write that met no hook at all -- the display has stopped meanwhile -- starts wherever
+        # the tainting write left the cursor, e.g. at the end of a frame row: explained as well)
+        return s is None or s > self.taint
 
     def write_done(self, seq, tid):
         self.events.append((seq, tid, "write", self.kind.get(tid, "refresh")))
